@@ -311,6 +311,7 @@ def main(argv=None):
         "checker_cmd": f"coqc -Q coq/theories PW coq/theories/Props/{prop}.v  (after make -C coq; Print Assumptions parsed)",
         "trusted_base": lib.TRUSTED_BASE + list(getattr(mod, "TRUSTED", [])),
         "theorems": pg["theorems"], "print_assumptions": pg["assumptions"],
+        **({"generated_tie": {k: v for k, v in pg["generated_tie"].items() if k != "generated_text"}} if pg.get("generated_tie") else {}),
         "evaluations": len(results), "distinct_nontrivial": len(nontrivial_keys),
         "rule": mod.RULE, "samples": samples,
         "traces_validated_against_impl": len(modelled), "model_impl_disagreements": len(mism),
